@@ -26,6 +26,24 @@ func init() {
 	wrap("C08", extra11C08)
 	wrap("C05", extra11C05)
 	wrap("C19", extra11C19)
+	wrap("C02", extra11C02)
+	wrap("C15", extra11C15)
+	wrap("C07", extra11C07)
+	wrap("C13", extra11C13)
+	wrap("C04", extra11C04)
+	wrap("C09", extra11C09)
+	wrap("C11", extra11C11)
+	for _, id := range []string{"C02", "C15"} {
+		has := false
+		for _, p := range registry[id].Pkgs {
+			if p == "llm" {
+				has = true
+			}
+		}
+		if !has {
+			registry[id].Pkgs = append(registry[id].Pkgs, "llm")
+		}
+	}
 	wrap("C17", extra11C17)
 	wrap("C03", func(c *Ctx) { ruleTolerantNameLookup(c, "C03-R21") })
 	registry["C05"].Pkgs = append(registry["C05"].Pkgs, "convert")
@@ -405,4 +423,336 @@ func extra11C17(c *Ctx) {
 		c.Check(rule, f.Key()+" non-error return only after the final record", c.Pos(ex.Return), ok, "`"+core.ExprString(ex.Return.Results[0])+"` is returned where neither the final record was delivered nor the context is known to be done")
 	}
 	c.Expect(rule, "non-error returns of Completion", nOK, 2)
+}
+
+// ancestorsOf returns the chain of nodes from root down to (excluding) n.
+func ancestorsOf(root, n ast.Node) []ast.Node {
+	var stack, out []ast.Node
+	ast.Inspect(root, func(m ast.Node) bool {
+		if out != nil {
+			return false
+		}
+		if m == nil {
+			stack = stack[:len(stack)-1]
+			return false
+		}
+		if m == n {
+			out = append([]ast.Node{}, stack...)
+			return false
+		}
+		stack = append(stack, m)
+		return true
+	})
+	return out
+}
+
+// ---------------------------------------------------------------------------------- C02
+
+func extra11C02(c *Ctx) {
+	rule := "C02-R18"
+	c.Rule(rule, "closing a runner never blocks the scheduler: llmServer.done carries one value (the reaper's cmd.Wait result) and WaitUntilRunning takes it when the process dies during load, so every receive from it in llmServer.Close is on the `cmd.ProcessState == nil` edge — an unconditional receive never returns for such a runner, and Close runs under loadedMu and refMu in the completed loop, which then serves no request again")
+	f := c.Fn(rule, "llm", "llmServer.Close")
+	if f == nil {
+		return
+	}
+	info := f.Info()
+	g := c.G(f)
+	n := 0
+	ast.Inspect(f.Body, func(nd ast.Node) bool {
+		ue, ok := nd.(*ast.UnaryExpr)
+		if !ok || ue.Op != token.ARROW {
+			return true
+		}
+		se, isSel := ast.Unparen(ue.X).(*ast.SelectorExpr)
+		if !isSel {
+			return true
+		}
+		if fv := core.FieldVar(info, se); fv == nil || fv.Name() != "done" {
+			return true
+		}
+		n++
+		ok = false
+		for _, a := range g.AtomsAt(g.Locate(ue)) {
+			be, isB := ast.Unparen(a.Expr).(*ast.BinaryExpr)
+			if !isB || !mentionsSel(be, "ProcessState") {
+				continue
+			}
+			if (be.Op == token.EQL && a.Val) || (be.Op == token.NEQ && !a.Val) {
+				ok = true
+			}
+		}
+		c.Check(rule, f.Key()+" waits for the reaper only while the process has not been reaped", c.Pos(ue), ok, "the receive from done is not behind `ProcessState == nil`: after a runner died during load the value is gone and Close blocks for good")
+		return true
+	})
+	c.Expect(rule, "receives from done in llmServer.Close", n, 1)
+}
+
+// ---------------------------------------------------------------------------------- C15
+
+func extra11C15(c *Ctx) {
+	rule := "C15-R15"
+	c.Rule(rule, "a runner slot is given back once: in package llm every Release of the request semaphore is the call of a defer statement, and a function has no more of them than it has Acquire calls — an extra Release on one path (before a slow Close, say) makes the deferred one panic with `released more than held` in a goroutine outside gin's recovery, or silently admits one request too many")
+	pkg := c.P.Pkgs["llm"]
+	if pkg == nil {
+		c.Undecided(rule, "anchor:package llm", "-", "anchor lost: package llm not loaded")
+		return
+	}
+	nRel := 0
+	for _, f := range c.P.FuncsOf("llm") {
+		if f.Body == nil {
+			continue
+		}
+		info := f.Info()
+		acq, rel := 0, 0
+		deferred := map[*ast.CallExpr]bool{}
+		ast.Inspect(f.Body, func(nd ast.Node) bool {
+			if d, ok := nd.(*ast.DeferStmt); ok {
+				deferred[d.Call] = true
+			}
+			return true
+		})
+		for _, call := range core.Calls(f.Body, true) {
+			switch core.CalleeName(info, call) {
+			case "golang.org/x/sync/semaphore.Weighted.Acquire", "golang.org/x/sync/semaphore.Weighted.TryAcquire":
+				acq++
+			case "golang.org/x/sync/semaphore.Weighted.Release":
+				rel++
+				nRel++
+				c.Check(rule, f.Key()+" Release is deferred", c.Pos(call), deferred[call], "a Release outside a defer statement: together with the deferred one the slot is returned twice on this path")
+			}
+		}
+		if rel > 0 {
+			c.Check(rule, f.Key()+" no more Release than Acquire", c.Pos(f.Decl), rel <= acq, "the function releases "+itoa(rel)+" time(s) and acquires "+itoa(acq))
+		}
+	}
+	c.Expect(rule, "Release calls on the request semaphore in package llm", nRel, 2)
+}
+
+// ---------------------------------------------------------------------------------- C07
+
+func extra11C07(c *Ctx) {
+	rule := "C07-R23"
+	c.Rule(rule, "a wrapper resumes only where every wrapped cache can: WrapperCache.CanResume returns constants, its `false` is on the false edge of a wrapped cache's CanResume inside the loop over c.caches, and `true` is returned only outside that loop — with `any` in place of `all` the full causal cache of a gemma-style pair always answers yes and the sliding-window cache is resumed behind its window")
+	f := c.Fn(rule, "kvcache", "WrapperCache.CanResume")
+	if f == nil {
+		return
+	}
+	info := f.Info()
+	g := c.G(f)
+	type loopT struct{ Stmt ast.Stmt }
+	var loop *loopT
+	ast.Inspect(f.Body, func(nd ast.Node) bool {
+		switch x := nd.(type) {
+		case *ast.RangeStmt:
+			if mentionsSel(x.X, "caches") && loop == nil {
+				loop = &loopT{x}
+			}
+		case *ast.ForStmt:
+			if x.Cond != nil && mentionsSel(x.Cond, "caches") && loop == nil {
+				loop = &loopT{x}
+			}
+		}
+		return true
+	})
+	if loop == nil {
+		c.Check(rule, f.Key()+" asks every wrapped cache", c.Pos(f.Decl), false, "no loop over the wrapped caches: the answer is not the conjunction of theirs (accepted form: loop, return false on the first refusal, return true after it)")
+		return
+	}
+	sawFalse := false
+	for _, ex := range g.Returns() {
+		if len(ex.Return.Results) != 1 {
+			continue
+		}
+		tv, has := info.Types[ex.Return.Results[0]]
+		if !has || tv.Value == nil {
+			c.Check(rule, f.Key()+" returns a constant", c.Pos(ex.Return), false, "the result is computed by `"+core.ExprString(ex.Return.Results[0])+"`; accepted form: return false on the first refusal, true after the loop")
+			continue
+		}
+		if tv.Value.String() == "true" {
+			c.Check(rule, f.Key()+" says yes only after the loop", c.Pos(ex.Return), !within(loop.Stmt, ex.Return), "`return true` inside the loop: one willing cache answers for all")
+			continue
+		}
+		okEdge := false
+		for _, a := range g.AtomsAt(ex.Loc) {
+			if call, isC := ast.Unparen(a.Expr).(*ast.CallExpr); isC && !a.Val && strings.HasSuffix(core.CalleeName(info, call), ".CanResume") {
+				okEdge = true
+			}
+		}
+		if okEdge && within(loop.Stmt, ex.Return) {
+			sawFalse = true
+		}
+	}
+	c.Check(rule, f.Key()+" refuses on the first refusal", c.Pos(loop.Stmt), sawFalse, "no `return false` on the false edge of a wrapped cache's CanResume inside the loop")
+}
+
+// ---------------------------------------------------------------------------------- C13
+
+func extra11C13(c *Ctx) {
+	rule := "C13-R11"
+	c.Rule(rule, "nothing of the string is thrown away: in names.Parse both string results of every cutLastAny call are kept (assigned to a part of the name or to the variable scanned next) — a discarded head accepts `x/h/n/m:t` and `../../h/n/m:t` as the name h/n/m:t, so unboundedly many strings share one path, the print/parse round trip is not the identity and the two parsers disagree")
+	f := c.Fn(rule, namesPkg, "Parse")
+	if f == nil {
+		return
+	}
+	info := f.Info()
+	n := 0
+	ast.Inspect(f.Body, func(nd ast.Node) bool {
+		as, ok := nd.(*ast.AssignStmt)
+		if !ok || len(as.Rhs) != 1 {
+			return true
+		}
+		call, isC := ast.Unparen(as.Rhs[0]).(*ast.CallExpr)
+		if !isC || core.CalleeName(info, call) != namesPkg+".cutLastAny" {
+			return true
+		}
+		n++
+		ok = len(as.Lhs) == 3
+		for i, l := range as.Lhs {
+			if id, isId := l.(*ast.Ident); isId && id.Name == "_" && i < 2 {
+				ok = false
+			}
+		}
+		c.Check(rule, f.Key()+" keeps both pieces of the cut", c.Pos(as), ok, "`"+core.ExprString(as.Lhs[0])+", "+core.ExprString(as.Lhs[min(1, len(as.Lhs)-1)])+"`: a piece of the scanned string is discarded")
+		return true
+	})
+	for _, call := range core.CallsTo(info, f.Body, true, namesPkg+".cutLastAny") {
+		_ = call
+		n += 0
+	}
+	c.Expect(rule, "cutLastAny assignments in names.Parse", n, 2)
+}
+
+// ---------------------------------------------------------------------------------- C04
+
+func extra11C04(c *Ctx) {
+	rule := "C04-R17"
+	c.Rule(rule, "the reference scan reads what is on disk: every success return of ParseNamedManifest is dominated by the JSON decode of the file it just opened — an answer from a cache keyed on path, size and mtime is stale for a manifest rewritten to the same length within one timestamp tick (cp over a model with an equally long system prompt), and deleting the source then removes blobs the listed model still references")
+	f := c.Fn(rule, "server", "ParseNamedManifest")
+	if f == nil {
+		return
+	}
+	g := c.G(f)
+	dec := append(g.FindCalls("encoding/json.Decoder.Decode"), g.FindCalls("encoding/json.Unmarshal")...)
+	c.Expect(rule, "JSON decodes in ParseNamedManifest", len(dec), 1)
+	n := 0
+	for _, ex := range g.Returns() {
+		if g.ReturnKind(ex) != core.RetSuccess {
+			continue
+		}
+		n++
+		ok := false
+		for _, h := range dec {
+			if g.Dominates(h.Loc, ex.Loc) {
+				ok = true
+			}
+		}
+		c.Check(rule, f.Key()+" success only after decoding the file", c.Pos(ex.Return), ok, "a manifest is returned without the file having been decoded in this call")
+	}
+	c.Expect(rule, "success returns of ParseNamedManifest", n, 1)
+}
+
+// ---------------------------------------------------------------------------------- C09
+
+func extra11C09(c *Ctx) {
+	rule := "C09-R19"
+	c.Rule(rule, "bytes are counted as already there only on the cache's word: in Registry.Pull every progress update carrying ErrCached (it advances the completed counter without a download) sits in an if whose condition tests for nil the error of a DiskCache.Get in the same function literal — counting a chunk because some other pull was seen fetching it, whatever became of that pull, lets completed == expected hold over a missing chunk and the name is linked")
+	f := c.Fn(rule, regPkg, "Registry.Pull")
+	if f == nil {
+		return
+	}
+	info := f.Info()
+	var errCached types.Object
+	if p := c.P.Pkgs[regPkg]; p != nil {
+		errCached = p.Types.Scope().Lookup("ErrCached")
+	}
+	if errCached == nil {
+		c.Undecided(rule, "anchor:ErrCached", "-", "anchor lost")
+		return
+	}
+	fromGet := map[types.Object]bool{}
+	ast.Inspect(f.Body, func(nd ast.Node) bool {
+		if as, ok := nd.(*ast.AssignStmt); ok && len(as.Rhs) == 1 {
+			if call, isC := ast.Unparen(as.Rhs[0]).(*ast.CallExpr); isC && core.CalleeName(info, call) == blobPkg+".DiskCache.Get" && len(as.Lhs) == 2 {
+				if id, isId := as.Lhs[1].(*ast.Ident); isId {
+					fromGet[info.ObjectOf(id)] = true
+				}
+			}
+		}
+		return true
+	})
+	n := 0
+	for _, call := range core.Calls(f.Body, true) {
+		uses := false
+		for _, a := range call.Args {
+			if id, isId := ast.Unparen(a).(*ast.Ident); isId && info.Uses[id] == errCached {
+				uses = true
+			}
+		}
+		if !uses {
+			continue
+		}
+		n++
+		ok := false
+		chain := ancestorsOf(f.Body, call)
+		for i := len(chain) - 1; i >= 0 && !ok; i-- {
+			if _, isLit := chain[i].(*ast.FuncLit); isLit {
+				break
+			}
+			ifs, isIf := chain[i].(*ast.IfStmt)
+			if !isIf || !within(ifs.Body, call) {
+				continue
+			}
+			ast.Inspect(ifs.Cond, func(m ast.Node) bool {
+				if be, isB := m.(*ast.BinaryExpr); isB && be.Op == token.EQL {
+					if x, _, isNil := core.IsNilCheck(info, be); isNil {
+						if id, isId := ast.Unparen(x).(*ast.Ident); isId && fromGet[info.Uses[id]] {
+							ok = true
+						}
+					}
+				}
+				return true
+			})
+		}
+		c.Check(rule, f.Key()+" ErrCached update behind a cache hit", c.Pos(call), ok, "the update counts bytes as cached without a successful DiskCache.Get guarding it")
+	}
+	c.Expect(rule, "ErrCached updates in Registry.Pull", n, 2)
+}
+
+// ---------------------------------------------------------------------------------- C11
+
+func extra11C11(c *Ctx) {
+	rule := "C11-R22"
+	c.Rule(rule, "fit is judged on the options the runner is started with: in processPending the CPU-mode fit question (maybeFindCPURunnerToUnload reads the request's NumCtx and derives the parallelism from it) is asked after the store that scales opts.NumCtx by the parallelism — scaling only next to the load judges a 1× context and starts a 4× one beside the loaded models without evicting anything")
+	f := c.Fn(rule, "server", "Scheduler.processPending")
+	if f == nil {
+		return
+	}
+	info := f.Info()
+	g := c.G(f)
+	var stores []core.Loc
+	ast.Inspect(f.Body, func(nd ast.Node) bool {
+		as, ok := nd.(*ast.AssignStmt)
+		if !ok {
+			return true
+		}
+		for _, l := range as.Lhs {
+			if se, isSel := ast.Unparen(l).(*ast.SelectorExpr); isSel {
+				if fv := core.FieldVar(info, se); fv != nil && fv.Name() == "NumCtx" {
+					stores = append(stores, g.Locate(as))
+				}
+			}
+		}
+		return true
+	})
+	asks := g.FindCalls("server.Scheduler.maybeFindCPURunnerToUnload")
+	c.Expect(rule, "CPU-mode fit questions in processPending", len(asks), 1)
+	for _, h := range asks {
+		dom := false
+		for _, st := range stores {
+			if g.Dominates(st, h.Loc) {
+				dom = true
+			}
+		}
+		c.Check(rule, f.Key()+" fit question after the context was scaled", c.Pos(h.Node), dom, "maybeFindCPURunnerToUnload is asked before opts.NumCtx holds the scaled value")
+	}
 }
